@@ -42,6 +42,10 @@ CHECKS["C05"] = dict(level="model_checking", engine="tlc-trace",
    technique="trace validation of recorded grid calls against GridTrace.tla (lattice equality by determinantal criteria, exact disjointness on generators, images on generators / preimages on congruences, finite-quotient difference)",
    text="TLC-generated histories over a pool of 3 grids (random walks with state-driver bias, and recipe histories: state drivers x target operation) are executed on the real Grid class; after every call both minimized descriptions of every slot must denote the same lattice (determinant criterion, nothing shared with the library's reduction), every query must answer what the lattice dictates and every mutator must produce the definitional lattice.",
    note="Trusted: TLC, GridSem/GridTrace operators, harness/grid.cc. Bounds: dimension <= 3, moduli <= 4, divisors <= 3; emptiness of a system of >= 2 added congruences and of non-invertible preimages is undecided; difference is decided only when the result differs from the minuend or one operand contains / misses the other. One known finding (OK() after conversion).", ref="§5 C05")
+CHECKS["C06"] = dict(level="model_checking", engine="tlc-trace",
+   technique="trace validation against MipTrace.tla, whose state is the problem data only; every answer recomputed by brute force (vertex enumeration + integer-box enumeration)",
+   text="TLC-generated incremental histories (constraints, boxes, new dimensions, new integer variables, objective / direction / pricing changes, copies, dump-load, interleaved with solve, is_satisfiable, feasible/optimizing point, optimal value, evaluate) are executed on MIP_Problem; the specification keeps just the data and requires after every observer the status, optimum, feasibility and integrality of the witness, and the documented exceptions, that the data dictates - hence incremental and fresh problems with equal data must agree.",
+   note="Trusted: TLC, GensOf, harness/mip.cc. Bounds: <= 3 variables, <= 9 constraints, |coeff| <= 4; problems whose relaxation is unbounded in an integer direction are undecided. Known findings: non-termination of branch-and-bound, invalid state after adding integer variables to a solved problem.", ref="§5 C06")
 NOT_YET = {}
 
 
